@@ -13,7 +13,7 @@ SPEC = {
         "thread-locality of the slot is taken from the `thread_local!` declaration (generated last_error_storage) and validated by two-thread runs",
         "module outputs cannot be read back through the C API; parity of module data is checked through rule verdicts after yrx_scanner_set_module_output",
     ],
-    "trusted_base": ["Gen/CapiEffects.v: YRX_RESULT variants, exported functions, per-function return paths with last-error effects, storage class of LAST_ERROR, message conversion and the flag -> Compiler method table of _yrx_compiler_create, regenerated from capi/src/*.rs (flag values cross-checked with capi/include/yara_x.h)",
+    "trusted_base": ["Gen/CapiEffects.v: YRX_RESULT variants, exported functions, per-function return paths with last-error effects, storage class of LAST_ERROR, message conversion, the flag -> Compiler method table of _yrx_compiler_create and the value-plumbing tables (out parameters, YRX_* structure literals, callback loops, CString sources, metadata arms, global setters), regenerated from capi/src/*.rs (flag values cross-checked with capi/include/yara_x.h)",
                      "extern declarations of the yrx_compiler_* functions in harness/src/bin/c19.rs (capi's `compiler` module is private; signatures copied from capi/src/compiler.rs)"],
 }
 
@@ -74,7 +74,8 @@ MANIFEST = {
                    "never changes another thread's slot and a thread's slot depends only on its own calls (thread_isolation, message_provenance); every return path of every "
                    "exported function yields a YRX_RESULT or belongs to a non-result function (codes_total); every path returning a detail-carrying code sets the message "
                    "(failure_with_detail_sets, failure_slot); every yrx_compiler_create flag switches the compiler option it is named after and survives yrx_compiler_build "
-                   "(compiler_flags_named_identically). The generated table is replayed against recorded call sequences of the real library (1 and 2 threads, valid and "
+                   "(compiler_flags_named_identically); the Rust expression behind every C-visible value is the documented one (value_plumbing_ok: identifiers, match offset/length "
+                   "from range().start/len(), each MetaValue variant with its own tag and union member, scan callbacks over matching_rules(), typed global setters). The generated table is replayed against recorded call sequences of the real library (1 and 2 threads, valid and "
                    "invalid calls), and compile/scan results through the C API are compared with the Rust API on generated rule sets, globals and buffers."),
     "level_note": ("Parity with the Rust API is differential (generated inputs), not a theorem. Trusted: Coq kernel, gen_capi.py (syntactic path walker; raises on shapes it cannot "
                    "classify), harness, extern declarations. The inputs of two repaired process aborts (yrx_scanner_finish without a scanned block; console.log of a string with NUL "
